@@ -1,6 +1,6 @@
 (* C16: "all references redirected to the retained region" — the body keeps its skeleton and every region reference is
-   mapped by ONE function of the region id, which sends every region to a remaining region of equal timing (as the
-   fingerprint sees it) and leaves the remaining regions alone. *)
+   mapped by ONE function of the region id, which sends every region to a remaining region of equal timing (begin None = 0,
+   equal ends) and leaves the remaining regions alone. *)
 From TT Require Import Model.Doc Gen.StyleTables Model.Isd Model.Lcd Spec.IsdSpec Spec.LcdSpec Model.LcdCases
   Proofs.Common.ElemInd Proofs.C16.Basics Proofs.C16.Prov Proofs.C16.Static Proofs.C16.Refs Proofs.C16.Idem Proofs.C16.Tree
   Proofs.C16.Chains Proofs.C16.Counting Proofs.C16.Alias Proofs.C16.Timeline1 Proofs.C16.Timeline2 Proofs.C16.Timeline3.
